@@ -151,6 +151,13 @@ def eq(a, b):
         except TypeError:
             return False
         if a.sort() != b.sort():
+            if {a.sort().kind(), b.sort().kind()} == {z3.Z3_INT_SORT, z3.Z3_REAL_SORT}:
+                return a == b
+            return False
+        r = z3.simplify(a == b)
+        if z3.is_true(r):
+            return True
+        if z3.is_false(r):
             return False
         return a == b
     if type(a) is not type(b) and not (isinstance(a, (int, float)) and isinstance(b, (int, float))):
@@ -233,3 +240,127 @@ def truthy_int(x):
     if is_sym(x):
         return x != 0
     return bool(x)
+
+
+# ---- bounded quantifiers --------------------------------------------------------------------------
+class QForall:
+    """forall k. lo <= k < hi  ==>  body(k)   (symbolic mode; must be a top-level clause).
+    As a goal it is skolemised; as a hypothesis it is instantiated by the engine (trigger terms:
+    skolem constants, array/sequence indices occurring in the obligation, `hints`)."""
+    def __init__(self, lo, hi, fn, hints=()):
+        self.lo, self.hi, self.fn, self.hints = lo, hi, fn, tuple(hints)
+
+    def instance(self, k):
+        body = self.fn(k)
+        if isinstance(body, QForall):
+            return QGuard(And(self.lo <= k, k < self.hi), body)
+        return Implies(And(self.lo <= k, k < self.hi), body)
+
+
+class QGuard:
+    """guard ==> (nested quantified fact)"""
+    def __init__(self, guard, q):
+        self.guard, self.q = guard, q
+
+
+def forall(lo, hi, fn, hints=()):
+    if is_sym(lo) or is_sym(hi):
+        return QForall(lo, hi, fn, hints)
+    for k in range(lo, hi):
+        r = fn(k)
+        if isinstance(r, QForall):
+            raise TypeError('symbolic body under a concrete quantifier')
+        if not r:
+            return False
+    return True
+
+
+def forall_sym(lo, hi, fn, hints=()):
+    """Always build the symbolic quantifier (bounds may be concrete z3 numerals)."""
+    if z3 is None or not (is_sym(lo) or is_sym(hi) or _FORCE_SYM[0]):
+        return forall(lo, hi, fn, hints)
+    return QForall(lo, hi, fn, hints)
+
+
+_FORCE_SYM = [False]
+
+
+# ---- pattern-list elements and ghost arrays --------------------------------------------------------
+class Pat:
+    """Symbolic pattern-list element (see values.VPat)."""
+    def __init__(self, iseof, isto, val):
+        self.iseof, self.isto, self.val = iseof, isto, val
+
+
+def pat_is_eof(x):
+    if isinstance(x, Pat):
+        return x.iseof
+    return x is ClassConst('EOF')
+
+
+def pat_is_timeout(x):
+    if isinstance(x, Pat):
+        return And(Not(x.iseof), x.isto)
+    return x is ClassConst('TIMEOUT')
+
+
+def pat_is_text(x):
+    if isinstance(x, Pat):
+        return And(Not(x.iseof), Not(x.isto))
+    return not isinstance(x, ClassConst)
+
+
+def pat_val(x):
+    return x.val if isinstance(x, Pat) else x
+
+
+class ConcArray(dict):
+    """Concrete ghost array (total map with default)."""
+    def __init__(self, default=0):
+        dict.__init__(self)
+        self.default = default
+
+
+def select(a, i):
+    if is_sym(a) or is_sym(i):
+        return z3.Select(a, i)
+    return a.get(i, a.default)
+
+
+def store(a, i, v):
+    if is_sym(a) or is_sym(i) or is_sym(v):
+        return z3.Store(a, i, v)
+    b = ConcArray(a.default)
+    b.update(a)
+    b[i] = v
+    return b
+
+
+# ---- occurrences and str.find ------------------------------------------------------------------------
+if z3 is not None:
+    Find = z3.Function('Find', z3.StringSort(), z3.StringSort(), z3.IntSort(), z3.IntSort())
+    OccP = z3.Function('Occ', z3.StringSort(), z3.StringSort(), z3.IntSort(), z3.BoolSort())
+
+
+def norm_start(off, L):
+    """Python's clamping of a (possibly negative) start offset into [0, L]."""
+    if is_sym(off) or is_sym(L):
+        return z3.If(off < 0, z3.If(off + L < 0, 0, off + L), z3.If(off > L, L, off))
+    if off < 0:
+        return max(off + L, 0)
+    return min(off, L)
+
+
+def find_from(buf, s, off):
+    """buf.find(s, off): -1 or the least occurrence position >= the clamped offset."""
+    if is_sym(buf) or is_sym(s) or is_sym(off):
+        buf, s = (buf if is_sym(buf) else z3.StringVal(to_z3_str(buf))), (s if is_sym(s) else z3.StringVal(to_z3_str(s)))
+        return Find(buf, s, norm_start(off, z3.Length(buf)))
+    return buf.find(s, off)
+
+
+def occ(text, s, p):
+    """s occurs in text at position p."""
+    if is_sym(text) or is_sym(s) or is_sym(p):
+        return OccP(text, s, p)
+    return 0 <= p and p + len(s) <= len(text) and text[p:p + len(s)] == s
